@@ -241,6 +241,15 @@ func (s *c10) genBlock(r *kit.Rng) []*wire.MsgTx {
 			if r.Chance(1, 2) {
 				d = s.pool[r.Intn(len(s.pool))]
 			}
+			if len(ins) > 0 && r.Chance(1, 10) {
+				// the script echoes, as a data element, an outpoint this very
+				// transaction spends (covenant-style introspection data): it
+				// matches only once that outpoint has entered the filter
+				in := ins[r.Intn(len(ins))]
+				d = model.OutPointBytes([32]byte(in.prev), in.index)
+				kind = []int{skNullData, skNonStd, skOp0}[r.Intn(3)]
+				s.st.Probe("output-echoes-spent-outpoint")
+			}
 			pushStyle = 0
 			if r.Chance(1, 6) {
 				pushStyle = 1 + r.Intn(2) // non-canonical push encodings
@@ -500,6 +509,69 @@ func (s *c10) exactClosure(txs []*wire.MsgTx, flags uint8) (map[int]bool, int) {
 	return exactClosure(s.items, txs, flags)
 }
 
+// soleOutpointEcho covers one more consequence of the statement (twelfth wave,
+// C10-C1012): a transaction whose ONLY reason for relevance is that it spends
+// one outpoint O that became relevant inside the block, and one of whose
+// output scripts pushes the 36 serialised bytes of that same O. Every
+// evaluation that finds it relevant sees a filter containing O, hence an
+// output match, hence (flag permitting) an update with that output's
+// outpoint - which its own spenders then inherit. Anything wider (two reasons,
+// an echo of some other outpoint) could be evaluated before the echoed
+// outpoint is in the filter and is deliberately not demanded.
+func soleOutpointEcho(items, outs map[string]bool, v *model.TxView, flags uint8) []int {
+	if items[string(v.TxID[:])] {
+		return nil
+	}
+	for _, sc := range v.Outputs {
+		if ps, ok := model.Pushes(sc); ok {
+			for _, p := range ps {
+				if items[string(p)] {
+					return nil
+				}
+			}
+		}
+	}
+	sole := ""
+	for _, in := range v.Inputs {
+		op := string(model.OutPointBytes(in.PrevHash, in.PrevIndex))
+		if items[op] {
+			return nil
+		}
+		if ps, ok := model.Pushes(in.SigScript); ok {
+			for _, p := range ps {
+				if items[string(p)] {
+					return nil
+				}
+			}
+		}
+		if outs[op] {
+			if sole != "" && sole != op {
+				return nil
+			}
+			sole = op
+		}
+	}
+	if sole == "" {
+		return nil
+	}
+	var upd []int
+	for k, sc := range v.Outputs {
+		ps, ok := model.Pushes(sc)
+		if !ok {
+			continue
+		}
+		for _, p := range ps {
+			if string(p) == sole {
+				if flags == model.UpdateAll || flags == model.UpdateP2PubkeyOnly && model.IsPubkeyOrMultisig(sc) {
+					upd = append(upd, k)
+				}
+				break
+			}
+		}
+	}
+	return upd
+}
+
 // exactClosure is shared with the concurrent block-scan runs of C20.
 func exactClosure(items map[string]bool, txs []*wire.MsgTx, flags uint8) (map[int]bool, int) {
 	views := make([]*model.TxView, len(txs))
@@ -545,6 +617,9 @@ func exactClosure(items map[string]bool, txs []*wire.MsgTx, flags uint8) (map[in
 						}
 					}
 				}
+			}
+			if rel && len(upd) == 0 {
+				upd = soleOutpointEcho(items, outs, v, flags)
 			}
 			if rel {
 				if !L[i] {
